@@ -35,6 +35,22 @@ def bf_inplace(v):
     return f
 
 
+def pdu_eq(d, obj):
+    """decoded == original and original == decoded.  A Finished PDU whose caller wrote 'no responses' as None keeps that None
+    in the caller's FinishedParams object (FinishedPdu works on the caller's object and does not rewrite it), and the
+    parameter records are compared as they are: the comparison is then made with the twin built with the [] spelling."""
+    o = getattr(obj, "_vp_twin", obj)
+    return bool(d == o) and bool(o == d)
+
+
+def empty_arg(lst, *key):
+    """An optional list argument that is empty, as a caller may write it: [] or None (both are accepted spellings of 'none')."""
+    import zlib
+    if lst:
+        return lst
+    return None if zlib.crc32(repr(key).encode()) % 2 else []
+
+
 def mk_cfg(c, inplace=False):
     from spacepackets.cfdp.conf import PduConfig
     from spacepackets.cfdp.defs import (TransmissionMode, LargeFileFlag, CrcFlag, Direction, SegmentationControl)
@@ -106,8 +122,18 @@ def mk_pdu(kind, cfg, p):
         from spacepackets.cfdp.pdu.finished import FinishedParams
         params = FinishedParams(enum_arg(ConditionCode, p["cond"], K), enum_arg(DeliveryCode, p["delivery"], K),
                                 enum_arg(FileStatus, p["status"], K),
-                                [mk_fsresp(r) for r in p["responses"]], _entity(p["fault"]))
-        ctor = lambda: P.FinishedPdu(conf, params)
+                                empty_arg([mk_fsresp(r) for r in p["responses"]], K, cfg["crc"]), _entity(p["fault"]))
+        if params.file_store_responses is None:
+            import copy as _c
+
+            def ctor():
+                o = P.FinishedPdu(conf, params)
+                twin_params = _c.copy(params)
+                twin_params.file_store_responses = []
+                o._vp_twin = P.FinishedPdu(_c.copy(conf), twin_params)
+                return o
+        else:
+            ctor = lambda: P.FinishedPdu(conf, params)
     elif kind == "ack":
         from spacepackets.cfdp.pdu.ack import TransactionStatus
         ctor = lambda: P.AckPdu(conf, enum_arg(P.DirectiveType, p["acked"], K), enum_arg(ConditionCode, p["cond"], K),
@@ -118,7 +144,7 @@ def mk_pdu(kind, cfg, p):
                                 _name(p["srcname"]) if p["srcname"] else None,
                                 _name(p["dstname"]) if p["dstname"] else None)
         opts = [CfdpTlv(enum_arg(TlvType, o["t"], K), bytes(o["v"])) for o in p["options"]]
-        ctor = lambda: P.MetadataPdu(conf, params, opts if opts else None)
+        ctor = lambda: P.MetadataPdu(conf, params, opts if opts else None)      # "no options" is None (the documented default)
     elif kind == "nak":
         params = [(_i(s), _i(e)) for s, e in p["segs"]]
         if params:
@@ -188,6 +214,8 @@ def mk_pdu_via_setters(kind, cfg, p):
         obj.segment_metadata = (SegmentMetadata(RecordContinuationState(p["meta"][0]["state"]), bytes(p["meta"][0]["md"]))
                                 if p["meta"] else None)
     # the caller's objects were legitimately written through by the setters: compare from here on
+    if hasattr(obj, "_vp_twin"):
+        del obj._vp_twin             # (the twin described the values before the setters)
     return obj, conf, params, _snapshot(conf, params)
 
 
@@ -520,7 +548,7 @@ def op_pdu_rt(a):
         decode_other("pdu:" + a["kind"], pdu_class(a["kind"]).unpack)
         rebuilt = outcome(lambda: octs(rebuild_pdu(a["kind"], d).pack()))
         return {"octets": octs(raw), "plen": plen, "dflen": dflen, "hlen": hlen, "dec": proj_pdu(d),
-                "dplen": d.packet_len, "ddflen": d.pdu_data_field_len, "eq": bool(d == obj) and bool(obj == d),
+                "dplen": d.packet_len, "ddflen": d.pdu_data_field_len, "eq": pdu_eq(d, obj),
                 "repack": outcome(lambda: octs(d.pack())), "caller": caller, "rebuild": rebuilt}
     return outcome(run)
 
@@ -561,7 +589,7 @@ def op_pdu_fac(a):
         buf = rxbuf(raw, a["sfx"])              # (the first buffer was re-used by the probe above)
         dt = PduFactory.pdu_directive_type(buf)
         hdt = h.pdu_directive_type
-        return {"cls": kind_of(d), "eq": bool(d == obj) and bool(obj == d), "repack": outcome(lambda: octs(d.pack())),
+        return {"cls": kind_of(d), "eq": pdu_eq(d, obj), "repack": outcome(lambda: octs(d.pack())),
                 "ptype": int(PduFactory.pdu_type(buf)), "isdir": bool(PduFactory.is_file_directive(buf)),
                 "dtype": -1 if dt is None else int(dt), "hptype": int(h.pdu_type), "hdtype": -1 if hdt is None else int(hdt),
                 "hplen": h.packet_len, "hpack": octs(h.pack()), "row": _row(h)}
